@@ -1,7 +1,7 @@
 (* Property C13: shutdown reaches every job exactly once, at its scheduler's end, in bounded time.
    Only property theorems here. Model R, level 3 (handlers, shutdown activities, FIFO of the loop). *)
 From AJ Require Import Common.Util Run.RModel Run.RFacts Run.RFacts2 Run.RInv Run.RInv5 Run.RMon Run.RProps3
-  Run.RShut1 Run.RShut2 Run.RTime Run.RProps5 Props.RExample.
+  Run.RShut1 Run.RShut2 Run.RTime Run.RProps5 Props.RExample Run.RSchedDef Run.RFlatten Run.RSolve Run.RSched Run.RSchedTop.
 
 (* (a) at most once.  The life of the co_shutdown() task of a job only moves forward
    (none < created < running < done/cancelled) ... *)
@@ -86,6 +86,36 @@ Print Assumptions C13_accepted_histories.
 
 (* Modelled, not proved: that the handler of a member cancelled after shutdown_timeout honours the
    cancellation at once (the harness's handlers do); the hand-over inside asyncio.wait. *)
+
+(* (h) the shutdown phase in closed form.  In a tree without window or forever job (timeouts that the
+   schedule does not reach allowed, handlers of any finite duration, any nesting depth), until a
+   critical job raises: the shutdown phase of scheduler n begins at the instant M at which its last
+   job ends, lasts exactly shut_len c n = min (shutdown_timeout, longest handler of its jobs) -- never
+   more than shutdown_timeout --, nested schedulers having shut down at their own end; and n is over,
+   for the jobs that require it, at M + shut_len c n. *)
+Theorem C13_shutdown_phase_on_schedule : forall c S E h s,
+  wf c = true -> plainH c = true -> is_scheduleH c S E -> slackH c S E ->
+  Reach 3 c h s -> calm c E s ->
+  forall n, n < njobs c -> j_sched (jc c n) = true ->
+    let M := maxl (S n) (map E (members c n)) in
+    (ph (Rn s n) = PMain -> (S n <= now s)%N /\ (now s <= M)%N) /\
+    (ph (Rn s n) = PShut WSuccess -> (M <= now s)%N /\ (now s <= M + shut_len c n)%N) /\
+    (ph (Rn s n) = POver -> (M + shut_len c n <= now s)%N /\ (n <> 0 -> (E n <= now s)%N)) /\
+    okph (ph (Rn s n)).
+Proof. exact shutdown_phase_on_schedule. Qed.
+Print Assumptions C13_shutdown_phase_on_schedule.
+
+Theorem C13_shutdown_length_bounded : forall c n t, j_sdto (jc c n) = Some t -> (shut_len c n <= t)%N.
+Proof. intros c n t H. unfold shut_len. rewrite H. apply N.le_min_l. Qed.
+Print Assumptions C13_shutdown_length_bounded.
+
+(* non-vacuity: RSched.ExampleH (root{m{x: 1 s, co_shutdown 2 s}, y requires m}) and ExampleHcut (the same
+   with shutdown_timeout 1 on m: the handler is cancelled at 2) are accepted at level 3 *)
+Example C13_schedule_nonvacuous :
+  plainH RSched.ExampleH.ex_c = true /\ accept 3 RSched.ExampleH.ex_c RSched.ExampleH.ex_h = true /\
+  shut_len RSched.ExampleH.ex_c 1 = 2%N /\ SofH RSched.ExampleH.ex_c 3 = 3%N /\
+  accept 3 RSched.ExampleHcut.ex_c RSched.ExampleHcut.ex_h = true /\ shut_len RSched.ExampleHcut.ex_c 1 = 1%N.
+Proof. repeat split; vm_compute; reflexivity. Qed.
 
 Example C13_nonvacuous :
   accept 3 ex_cfg ex_hist = true /\
